@@ -378,6 +378,10 @@ func localTargets(v ssa.Value, depth int, seen map[ssa.Value]bool) ([]*ssa.Funct
 // function value taking a *T for which the package has no candidate at all).
 func (a *fxAnalysis) callees(c *ssa.CallCommon) (fs []*ssa.Function, unknown bool) {
 	if c.IsInvoke() {
+		// a method with an unexported name: the methods of that name in its package are all it can run (closedworld.go)
+		if ts, ok := a.invokeAnalysed(c); ok {
+			return ts, false
+		}
 		// interface method call: cannot reach the unexported fields of T except through a *T argument
 		for _, arg := range c.Args {
 			if a.isTargetPtr(arg.Type()) {
@@ -439,6 +443,8 @@ func (a *fxAnalysis) argFuncs(c *ssa.CallCommon) []*ssa.Function {
 		} else if _, isBuiltin := c.Value.(*ssa.Builtin); !isBuiltin {
 			return nil // call through a function value: resolved to functions of the package, see above
 		}
+	} else if _, ok := a.invokeAnalysed(c); ok {
+		return nil // resolved to analysed methods: as for an analysed static callee
 	}
 	var out []*ssa.Function
 	for _, arg := range c.Args {
